@@ -22,27 +22,43 @@ single command (and every MULTI…EXEC block) is atomic on the server.
 
 PutMany of the empty list issues no command at all and is not covered (`entry (.putMany []) = none`).
 
-Server = `Kv.Spec` read at the server time `St.now` (milliseconds): its store is the key space, its
-`nextVer` the id source; a record whose expiry lies before `now` IS absent (`Spec.live`).  A version is
-drawn when it is written: redis.go draws the ULID a few statements earlier, but ids are only ever
-compared for equality and an id that is never stored is never seen by anybody, so the moment of
-drawing is unobservable (ULID uniqueness: trusted base).
-WATCH bookkeeping: `watch t = some (k, dirty)`; every command that writes or removes key k marks all
-watchers of k dirty (Redis marks a watched key as touched on any modification, even to the same value).
+Server = the Redis server model of Model/Kv.lean (`St.srv : Kv.Redis`: `srv : RedisSrv`, the key space
+— Redis key ↦ `RVal` = decoded payload `r : Rec` + absolute key `deadline` —, and `nextVer`, the id
+source) at the server time `St.now` (milliseconds).  The client code is the one `Kv.Redis.step` models
+sequentially, cut into its commands:
+  * keys: every command addresses `rKey k` ("/kvs/" ++ k without its leading slashes): client keys
+    that differ only in leading slashes ("s", "/s") are ONE server key;
+  * expiry: a key whose deadline has been reached (`deadline ≤ now`) is gone.  EVERY command first lets
+    the server drop the elapsed keys — it acts on `s.psrv` = `s.srv` with `RedisSrv.purge s.now`,
+    exactly as `Kv.Redis.step` starts.  `s.srv` itself is the server as the last command that TOOK
+    EFFECT left it (a linearizing command stores the purged-then-modified server; a command that is no
+    linearization point leaves `s.srv` alone, which nobody can observe: the next command purges
+    again); a `tick` does not touch it;
+  * look-ups: `s.psrv.srv.get (rKey k)`; what clients see of a record is its payload `rv.r` (value,
+    version, the REQUESTED expiry `rv.r.exp`, also when that lies in the past);
+  * writes: `Redis.setRec now k v e`: payload with the requested `e`, key deadline `deadlineOf e now` =
+    `now + max 1 (e − now)` (the Go code clamps the TTL to 1 ms: a record written with `e ≤ now` is
+    visible until `now + 1`); DEL = `RedisSrv.del (rKey k)`; MSET = the fold of `setRec` (no expiries).
+A version is drawn when it is written: redis.go draws the ULID a few statements earlier, but ids are
+only ever compared for equality and an id that is never stored is never seen by anybody, so the moment
+of drawing is unobservable (ULID uniqueness: trusted base).
+WATCH bookkeeping is keyed by the REDIS key: `watch t = some (rKey k, dirty)`; every command that writes
+or removes Redis key rk marks all watchers of rk dirty (Redis marks a watched key as touched on any
+modification, even to the same value) — so a CAS on "/s" is failed by a concurrent Put on "s".
+What the EXPIRY of a watched key does to the EXEC is server-version specific and kept out of the model
+by design: no tick is possible between a CAS's GET and its EXEC (`tickBlocked (casExec …)`), and a tick
+between WATCH and GET is harmless (the GET reads again).
 
 Expiries and the clock.  Operations carry the ABSOLUTE expiry `e : Option Nat` the caller asked for
 (as in `Kv.Op`); Redis stores a RELATIVE ttl: the record written by a command executed at server time
 T with `PX ttl` disappears at T+ttl.  The client computes the relative TTL
-(`expiration(expiresAt, time.Now())` = `expiresAt − time.Now()`) right before sending the write
-command (before EACH SETNX of Create, before the SET of Put and of every Put of the PutMany loop,
-before MULTI SET EXEC of CAS); the server applies it when the command arrives.  The model does not let
-the clock advance in between: `Ev.tick d` (`now := now + d`) is ENABLED only if no client is inside
-such a "TTL window" (`tickBlocked`: `create1` / `put` with an expiry, `putLoop`, `casExec`).  In
+(`expiration(expiresAt, time.Now())` = `expiresAt − time.Now()`, at least 1 ms) right before sending
+the write command (before EACH SETNX of Create, before the SET of Put and of every Put of the PutMany
+loop, before MULTI SET EXEC of CAS); the server applies it when the command arrives.  The model does
+not let the clock advance in between: `Ev.tick d` (`now := now + d`) is ENABLED only if no client is
+inside such a "TTL window" (`tickBlocked`: `create1` / `put` with an expiry, `putLoop`, `casExec`).  In
 reality the two instants differ by one command latency, by which the record's life is lengthened —
-outside the model.  `casExec` blocks the clock for any expiry, additionally because whether the
-expiry of a WATCHed key makes the EXEC fail is server-version specific — outside the model.  With no
-tick inside the window, `server time + ttl = requested absolute expiry`, so a write stores exactly the
-requested `e` (`Spec.write k v e`).
+outside the model.  With no tick inside the window, `server time + ttl = deadlineOf e now`.
 
 The loop path of PutMany is NOT one atomic operation ("per-key effects" is what the property claims
 for PutMany): each of its SETs is reported as one complete Put operation of that client.  In the `Lin`
@@ -75,14 +91,19 @@ inductive Pc where
 deriving DecidableEq, Repr
 
 structure St where
-  srv : Spec
+  srv : Redis                                        -- the Redis server (`Kv.RedisSrv`) and the id source, as the
+                                                     -- last command that took effect left them (NOT purged since)
   now : Nat                                          -- server time, milliseconds
   pc : List Pc                                       -- one per client
-  watch : List (Option (String × Bool))              -- per client: watched key and "touched since WATCH"
+  watch : List (Option (String × Bool))              -- per client: watched REDIS key (`rKey k`) and "touched since WATCH"
 deriving DecidableEq, Repr
 
 def St.init (n : Nat) : St :=
-  { srv := Spec.new, now := 0, pc := List.replicate n .idle, watch := List.replicate n none }
+  { srv := Redis.new, now := 0, pc := List.replicate n .idle, watch := List.replicate n none }
+
+/-- the server as EVERY command finds it: the keys whose TTL has elapsed at the server's time are gone
+(`RedisSrv.purge`, exactly as `Kv.Redis.step` starts) -/
+def St.psrv (s : St) : Redis := { s.srv with srv := s.srv.srv.purge s.now }
 
 inductive Ev where
   | call (t : Nat) (op : Op)
@@ -137,7 +158,7 @@ def tickBlocked : Pc → Bool
   | .casExec _ _ _ _ => true
   | _ => false
 
-/-- every watcher of one of the keys is marked dirty -/
+/-- every watcher of one of the (Redis) keys is marked dirty -/
 def touch (w : List (Option (String × Bool))) (ks : List String) : List (Option (String × Bool)) :=
   w.map fun e => match e with
     | some (k, d) => some (k, d || ks.contains k)
@@ -151,49 +172,53 @@ def loopNext : List (String × String × Option Nat) → Pc
   | r :: rest => .putLoop (r :: rest)
 
 /-- one Redis command of client t: (new state, the `Lin` events of this command: `[lin t]` if it is the
-operation's linearization point, `[]` if not, a complete Put for a SET of the PutMany loop) -/
+operation's linearization point, `[]` if not, a complete Put for a SET of the PutMany loop).
+Every command acts on `s.psrv` (the server purged at `s.now`).  A command at which an operation takes
+effect stores the purged-then-modified server; a command that is not a linearization point (SETNX → 0,
+Create's GET → nil, WATCH, a CAS's GET that finds the expected version, a failed EXEC) leaves `s.srv`
+as it is — unobservable, since the next command purges again. -/
 def cmdStep (s : St) (t : Nat) : Option (St × List (Lin.Ev LOp Out)) :=
   match s.pc[t]? with
   | some (.create1 k v e) =>
-    match s.srv.live s.now k with
+    match s.psrv.srv.get (rKey k) with
     | some _ => some (s.setPc t (.create2 k v e), [])                     -- SETNX → 0
     | none =>                                                             -- SETNX → 1
-      let (srv', ver) := s.srv.write k v e
-      some ({ s with srv := srv', watch := touch s.watch [k] }.setPc t (.done (.okVer ver)), [.lin t])
+      let (c', ver) := s.psrv.setRec s.now k v e
+      some ({ s with srv := c', watch := touch s.watch [rKey k] }.setPc t (.done (.okVer ver)), [.lin t])
   | some (.create2 k v e) =>
-    match s.srv.live s.now k with
-    | some r => some (s.setPc t (.done (.errExist (some r.ver))), [.lin t])  -- GET → record
+    match s.psrv.srv.get (rKey k) with
+    | some rv => some ({ s with srv := s.psrv }.setPc t (.done (.errExist (some rv.r.ver))), [.lin t])  -- GET → record
     | none => some (s.setPc t (.create1 k v e), [])                       -- GET → nil: the key is free again
-  | some (.get k) => some (s.setPc t (.done (s.srv.step s.now (.get k)).2), [.lin t])
-  | some (.getMany ks) => some (s.setPc t (.done (s.srv.step s.now (.getMany ks)).2), [.lin t])
+  | some (.get k) => some ({ s with srv := s.psrv }.setPc t (.done (s.srv.step s.now (.get k)).2), [.lin t])
+  | some (.getMany ks) => some ({ s with srv := s.psrv }.setPc t (.done (s.srv.step s.now (.getMany ks)).2), [.lin t])
   | some (.put k v e) =>
-    let (srv', ver) := s.srv.write k v e
-    some ({ s with srv := srv', watch := touch s.watch [k] }.setPc t (.done (.okVer ver)), [.lin t])
+    let (c', ver) := s.psrv.setRec s.now k v e
+    some ({ s with srv := c', watch := touch s.watch [rKey k] }.setPc t (.done (.okVer ver)), [.lin t])
   | some (.putMany rs) =>
-    let srv' := (s.srv.step s.now (.putMany (rs.map fun r => (r.1, r.2, none)))).1
-    some ({ s with srv := srv', watch := touch s.watch (rs.map (fun (r : String × String) => r.1)) }.setPc t (.done .ok), [.lin t])
+    let c' := (s.srv.step s.now (.putMany (rs.map fun r => (r.1, r.2, none)))).1
+    some ({ s with srv := c', watch := touch s.watch (rs.map (fun (r : String × String) => rKey r.1)) }.setPc t (.done .ok), [.lin t])
   | some (.putLoop ((k, v, e) :: rest)) =>                                -- one SET of the loop = one Put
-    let (srv', ver) := s.srv.write k v e
-    some ({ s with srv := srv', watch := touch s.watch [k] }.setPc t (loopNext rest),
+    let (c', ver) := s.psrv.setRec s.now k v e
+    some ({ s with srv := c', watch := touch s.watch [rKey k] }.setPc t (loopNext rest),
           [.inv t (.op (.put k v e)), .lin t, .ret t (.okVer ver)])
   | some (.del k) =>
-    match s.srv.live s.now k with
-    | none => some (s.setPc t (.done .errNotExist), [.lin t])             -- DEL → 0
+    match s.psrv.srv.get (rKey k) with
+    | none => some ({ s with srv := s.psrv }.setPc t (.done .errNotExist), [.lin t])             -- DEL → 0
     | some _ =>                                                           -- DEL → 1
-      some ({ s with srv := { s.srv with store := s.srv.store.erase k }, watch := touch s.watch [k] }.setPc t (.done .ok), [.lin t])
+      some ({ s with srv := { s.psrv with srv := s.psrv.srv.del (rKey k) }, watch := touch s.watch [rKey k] }.setPc t (.done .ok), [.lin t])
   | some (.casWatch k ver v e) =>
-    some ({ s with watch := s.watch.set t (some (k, false)) }.setPc t (.casGet k ver v e), [])
+    some ({ s with watch := s.watch.set t (some (rKey k, false)) }.setPc t (.casGet k ver v e), [])
   | some (.casGet k ver v e) =>
-    match s.srv.live s.now k with
-    | none => some ({ s with watch := s.watch.set t none }.setPc t (.done .errNotExist), [.lin t])
-    | some r =>
-      if r.ver ≠ ver then some ({ s with watch := s.watch.set t none }.setPc t (.done .errConflict), [.lin t])
+    match s.psrv.srv.get (rKey k) with
+    | none => some ({ s with srv := s.psrv, watch := s.watch.set t none }.setPc t (.done .errNotExist), [.lin t])
+    | some rv =>
+      if rv.r.ver ≠ ver then some ({ s with srv := s.psrv, watch := s.watch.set t none }.setPc t (.done .errConflict), [.lin t])
       else some (s.setPc t (.casExec k ver v e), [])
   | some (.casExec k ver v e) =>
     match s.watch[t]? with
     | some (some (_, false)) =>                                           -- EXEC applied
-      let (srv', nv) := s.srv.write k v e
-      some ({ s with srv := srv', watch := (touch s.watch [k]).set t none }.setPc t (.done (.okVer nv)), [.lin t])
+      let (c', nv) := s.psrv.setRec s.now k v e
+      some ({ s with srv := c', watch := (touch s.watch [rKey k]).set t none }.setPc t (.done (.okVer nv)), [.lin t])
     | _ =>                                                                -- EXEC → nil (TxFailedErr): start over
       some ({ s with watch := s.watch.set t none }.setPc t (.casWatch k ver v e), [])
   | _ => none
@@ -226,11 +251,11 @@ def runL (s : St) : List Ev → Option (St × List (Lin.Ev LOp Out))
     | none => none
     | some (s', l) => (runL s' es).map fun (s'', ls) => (s'', l ++ ls)
 
-/-- the sequential object the concurrent runs are compared with: the KV contract together with the
-time at which it is read -/
-def obj : Lin.Obj (Spec × Nat) LOp Out :=
-  { step := fun (s, now) i => match i with
-      | .op o => let (s', r) := s.step now o; ((s', now), r)
-      | .tick d => ((s, now + d), .ok) }
+/-- the sequential object the concurrent runs are compared with: the SEQUENTIAL model of the Redis
+client (`Kv.Redis.step`: purge at `now`, then act) together with the time at which it is run -/
+def obj : Lin.Obj (Redis × Nat) LOp Out :=
+  { step := fun (c, now) i => match i with
+      | .op o => let (c', r) := c.step now o; ((c', now), r)
+      | .tick d => ((c, now + d), .ok) }
 
 end RedisConc
